@@ -194,7 +194,8 @@ def run_c11(ctx):
     rep = vlib.run_harness_json(ctx, "exec", ["reuse", "-universe", up, "-vectors", vp], timeout=3000)
     absorb(ctx, rep, "reuse-replay", aspects, devs, ctx.prop)
     # sessions over abstract types (reflection strategy): operations of one document sharing a fragment on an interface
-    vecs, uni2, _ = enumerate_cases(ctx, ["absops", "dirvars", "inputs", "ops", "args"])
+    # (and, for the documents with a union as a type condition: the schema is extended between two resolves of one parsed request)
+    vecs, uni2, _ = enumerate_cases(ctx, ["absops", "abstract", "forms", "dirvars", "inputs", "ops", "args"])
     rep = replay(ctx, vecs, uni2, "shared-parse", strategies="iface,any,refl")
     absorb(ctx, rep, "shared-parse", aspects, devs, ctx.prop)
     record_and_judge(ctx, uni, "reuse-record", aspects, devs, ctx.prop, 500 if ctx.tier == "quick" else 4000,
